@@ -6,12 +6,8 @@
     the real tables on every run), the decoder model returns exactly the sequences that were written, consuming the
     stream exactly.  Built on the inverse law of backward bit streams (C12_Stream.v). *)
 Require Import Zrs.lib.RsPrelude Zrs.gen.Generated Zrs.model.BitIO Zrs.model.FseDec Zrs.model.HufDec Zrs.model.BlockDec.
-Require Import Zrs.proofs.C12_Stream.
+Require Import Zrs.model.BitStream Zrs.model.SeqEnc Zrs.proofs.C12_Stream.
 Open Scope Z_scope.
-
-(** an encoder state of one symbol: its index in the decoding table, the width and base of the range it covers *)
-Record enc_state := { es_index : Z; es_bits : nat; es_base : Z }.
-Record enc_table := { et_start : Z -> enc_state; et_next : Z -> Z -> enc_state; et_log : nat }.
 
 (** agreement of an encoder table with a decoding table on the symbols [syms] *)
 Definition entry_is (D : fse_table) (sym : Z) (s : enc_state) : Prop :=
@@ -25,8 +21,6 @@ Definition agree (D : fse_table) (E : enc_table) (syms : list Z) : Prop :=
       entry_is D sym (et_next E sym idx) /\
       es_base (et_next E sym idx) <= idx < es_base (et_next E sym idx) + 2 ^ Z.of_nat (es_bits (et_next E sym idx)).
 
-(** a sequence as the compressor sees it after the value -> code mapping *)
-Record cseq := { c_ll : Z; a_ll : Z; n_ll : nat; c_ml : Z; a_ml : Z; n_ml : nat; c_of : Z; a_of : Z }.
 Definition cseq_ok (q : cseq) : Prop :=
   0 <= a_ll q < 2 ^ Z.of_nat (n_ll q) /\ 0 <= a_ml q < 2 ^ Z.of_nat (n_ml q) /\ 0 <= c_of q <= MAX_OFFSET_CODE /\
   0 <= a_of q < 2 ^ c_of q /\
@@ -37,32 +31,6 @@ Definition cseq_value (q : cseq) : option sequence :=
   | ROk (bl, _), ROk (bm, _) => Some {| sq_ll := bl + a_ll q; sq_ml := bm + a_ml q; sq_of := a_of q + 2 ^ c_of q |}
   | _, _ => None
   end.
-
-Section Enc.
-  Variables (Ell Eml Eof : enc_table).
-
-  Definition extras (q : cseq) : list field :=
-    [(a_ll q, n_ll q); (a_ml q, n_ml q); (a_of q, Z.to_nat (c_of q))].
-
-  (** fields in write order for the sequences [qs] (decode order), and the state indices the decoder must hold when
-      it starts on the head of [qs] *)
-  Fixpoint enc_body (qs : list cseq) : Z * Z * Z * list field :=
-    match qs with
-    | [] => (0, 0, 0, [])
-    | [q] => (es_index (et_start Ell (c_ll q)), es_index (et_start Eml (c_ml q)), es_index (et_start Eof (c_of q)), extras q)
-    | q :: rest =>
-        let '(sl, sm, so, fs) := enc_body rest in
-        let nof := et_next Eof (c_of q) so in
-        let nml := et_next Eml (c_ml q) sm in
-        let nll := et_next Ell (c_ll q) sl in
-        (es_index nll, es_index nml, es_index nof,
-         fs ++ [(so - es_base nof, es_bits nof); (sm - es_base nml, es_bits nml); (sl - es_base nll, es_bits nll)] ++ extras q)
-    end.
-
-  Definition enc_fields (qs : list cseq) : list field :=
-    let '(sl, sm, so, fs) := enc_body qs in
-    fs ++ [(sm, et_log Eml); (so, et_log Eof); (sl, et_log Ell)].
-End Enc.
 
 Lemma fields_bits_snoc A v n : fields_bits (A ++ [(v, n)]) = fields_bits A ++ byte_bits_lsb n v.
 Proof. rewrite fields_bits_app. unfold fields_bits at 2. cbn [flat_map fst snd]. rewrite app_nil_r. reflexivity. Qed.
@@ -233,3 +201,85 @@ Section Whole.
     rewrite rd_remaining. reflexivity.
   Qed.
 End Whole.
+
+(** *** the encoder tables derived from the decoding tables agree with them *)
+Definition table_wf (D : fse_table) : Prop :=
+  Z.of_nat (length (t_decode D)) = t_len D /\ Forall (fun e => 0 <= e_bits e) (t_decode D) /\ 0 < t_acc_log D.
+(** every state index is covered by a state of [sym], and [sym] has a state at all (decidable; implied by the tiling
+    of the state ranges, C12_state_ranges) *)
+Definition covers (D : fse_table) (sym : Z) : Prop :=
+  min_base (t_decode D) 0 sym None <> None /\
+  forall idx, 0 <= idx < t_len D ->
+    find_entry (t_decode D) 0 (fun e => (e_sym e =? sym) && (e_base e <=? idx) && (idx <? e_base e + 2 ^ e_bits e)) <> None.
+
+Lemma find_entry_spec l : forall i p j e, find_entry l i p = Some (j, e) ->
+  i <= j < i + Z.of_nat (length l) /\ nth (Z.to_nat (j - i)) l entry0 = e /\ p e = true.
+Proof.
+  induction l as [|x t IH]; intros i p j e H; cbn [find_entry] in H; [discriminate|].
+  destruct (p x) eqn:Ep.
+  - injection H as <- <-. cbn [length]. replace (i - i) with 0 by lia. cbn. repeat split; try lia. exact Ep.
+  - destruct (IH _ _ _ _ H) as (A & B & C). cbn [length]. split; [lia|]. split; [|exact C].
+    replace (Z.to_nat (j - i)) with (S (Z.to_nat (j - (i + 1)))) by lia. exact B.
+Qed.
+
+Lemma min_base_spec l : forall i sym best j e, min_base l i sym best = Some (j, e) ->
+  best = Some (j, e) \/ (i <= j < i + Z.of_nat (length l) /\ nth (Z.to_nat (j - i)) l entry0 = e /\ e_sym e = sym).
+Proof.
+  induction l as [|x t IH]; intros i sym best j e H; cbn [min_base] in H; [left; exact H|].
+  destruct (IH _ _ _ _ _ H) as [Hb|(A & B & C)].
+  - destruct (Z.eqb_spec (e_sym x) sym) as [Es|_]; [|left; exact Hb].
+    destruct best as [[bi be]|].
+    + destruct (e_base x <? e_base be); [|left; exact Hb]. injection Hb as <- <-. right. cbn [length].
+      replace (i - i) with 0 by lia. cbn. repeat split; try lia.
+    + injection Hb as <- <-. right. cbn [length]. replace (i - i) with 0 by lia. cbn. repeat split; try lia.
+  - right. cbn [length]. split; [lia|]. split; [|exact C].
+    replace (Z.to_nat (j - i)) with (S (Z.to_nat (j - (i + 1)))) by lia. exact B.
+Qed.
+
+Lemma entry_of_index D sym j e : table_wf D -> 0 <= j < Z.of_nat (length (t_decode D)) ->
+  nth (Z.to_nat j) (t_decode D) entry0 = e -> e_sym e = sym ->
+  entry_is D sym (to_state (Some (j, e))).
+Proof.
+  intros (Hl & Hb & _) Hj Hn Hs. unfold entry_is, to_state. cbn [es_index es_bits es_base]. split; [lia|].
+  unfold nth_e. rewrite Hn. rewrite Forall_forall in Hb.
+  assert (0 <= e_bits e) by (apply Hb; rewrite <- Hn; apply nth_In; lia).
+  destruct e as [b n s]. cbn [e_base e_bits e_sym] in *. subst s. f_equal. lia.
+Qed.
+
+Theorem derived_encoder_agrees D syms : table_wf D -> Forall (covers D) syms -> agree D (enc_of_dec D) syms.
+Proof.
+  intros W Hc. pose proof W as (Hl & Hb & Hpos). unfold agree. cbn [et_log enc_of_dec].
+  split; [lia|]. split; [lia|].
+  intros sym Hin. rewrite Forall_forall in Hc. destruct (Hc sym Hin) as (Hmin & Hcov).
+  split.
+  - cbn [et_start enc_of_dec]. destruct (min_base (t_decode D) 0 sym None) as [[j e]|] eqn:E; [|congruence].
+    destruct (min_base_spec _ _ _ _ _ _ E) as [|(A & B & C)]; [discriminate|].
+    replace (j - 0) with j in B by lia. apply (entry_of_index D sym j e W); [lia|exact B|exact C].
+  - intros idx Hidx. cbn [et_next enc_of_dec].
+    destruct (find_entry (t_decode D) 0 _) as [[j e]|] eqn:E; [|exfalso; exact (Hcov idx Hidx E)].
+    destruct (find_entry_spec _ _ _ _ _ E) as (A & B & C).
+    apply andb_prop in C. destruct C as [C C3]. apply andb_prop in C. destruct C as [C1 C2].
+    apply Z.eqb_eq in C1. apply Z.leb_le in C2. apply Z.ltb_lt in C3.
+    rewrite Forall_forall in Hb.
+    assert (Hbits : 0 <= e_bits e) by (apply Hb; rewrite <- B; apply nth_In; lia).
+    split.
+    + replace (j - 0) with j in B by lia. apply (entry_of_index D sym j e W); [lia|exact B|exact C1].
+    + unfold to_state. cbn [es_base es_bits]. rewrite Z2Nat.id by exact Hbits. lia.
+Qed.
+
+(** hence, with the encoder tables derived from the decoding tables (what the executable model [reencode] uses and
+    what the real compressor's stream is compared with on every run): *)
+Corollary derived_encoder_roundtrip Dll Dml Dof sl sm so qs :
+  table_wf Dll -> table_wf Dml -> table_wf Dof ->
+  Forall (covers Dll) sl -> Forall (covers Dml) sm -> Forall (covers Dof) so ->
+  qs <> [] -> Forall cseq_ok qs -> Forall (q_in sl sm so) qs ->
+  let bytes := stream_bytes (enc_fields (enc_of_dec Dll) (enc_of_dec Dml) (enc_of_dec Dof) qs) in
+  exists r0 ll r1 of r2 ml r3 vals rf,
+    rbr_skip_padding (rbr_new bytes) = Some r0 /\
+    fse_init_state Dll r0 = ROk (ll, r1) /\ fse_init_state Dof r1 = ROk (of, r2) /\ fse_init_state Dml r2 = ROk (ml, r3) /\
+    seq_loop (length qs) (Z.of_nat (length qs)) (sc Dll Dml Dof) ll ml of r3 0 [] = ROk (rev vals, rf) /\
+    Forall2 (fun q v => cseq_value q = Some v) qs vals /\
+    rbr_bits_remaining rf = 0.
+Proof.
+  intros W1 W2 W3 C1 C2 C3. apply sequences_stream_roundtrip; apply derived_encoder_agrees; assumption.
+Qed.
